@@ -36,7 +36,7 @@ ASSUMPTIONS = [
     "the bracket n(ef-d)-1e-9 <= w <= n(ef+d)+1e-9, d=4e-12*max(1,|ef|), of the exact monotone fraction",
     "der>=1: judged only for corner sets whose distinct corners are >=1e-6 apart and ef not on a knot; tolerance 1e-8 of the "
     "largest value the exact derivative takes at knots/midpoints, plus twice the exact change caused by the documented "
-    "1e-12 spreading of coincident corners",
+    "1e-12 spreading of coincident corners (2 float spacings where 1e-12 is below the float grid, |e| ~ 1e4)",
     "parallelepiped: the documented decomposition (cell centre + every face split along its (0,0)-(1,1) diagonal) is taken "
     "as the specification",
     "run(): corner energies delivered by Data_K.E_K_corners_* are taken as given (their correctness is property C33)",
@@ -105,11 +105,14 @@ def ef_list(cs, eps, width):
 
 
 def spread_rule(cs):
-    """the library's documented treatment of (nearly) coincident corners, in exact arithmetic"""
+    """the library's documented treatment of (nearly) coincident corners, in exact arithmetic.  In double precision
+    `e + 1e-12` is rounded to the float grid, so for |e| >~ 5e3 (spacing > 5e-13) the separation that can actually be
+    realised is up to two grid spacings: the resolution is max(1e-12, 2*spacing(max|e|))."""
     e = sorted(Fr(c) for c in cs)
+    dmin = max(DIFF_MIN, 2 * Fr(float(np.spacing(max(abs(float(c)) for c in cs)))))
     for i in range(3):
         if e[i + 1] - e[i] < DIFF_MIN:
-            e[i + 1] = e[i] + DIFF_MIN
+            e[i + 1] = e[i] + dmin
     return e
 
 
